@@ -156,6 +156,7 @@ def asXStmt (j : Json) : R XStmt := do
 def jXStmt (s : XStmt) : Json :=
   let (p, k) := match s.params with
     | .pos l => (jarr (l.map jVal), Json.null)
+    | .kw [] => (jarr [], Json.null)       -- canonical form of "no parameters"
     | .kw l => (Json.null, jKw l)
   Json.mkObj [("name", Json.str s.name), ("pos", p), ("kw", k), ("wires", natList s.wires),
     ("inv", Json.bool s.inverse)]
